@@ -124,6 +124,9 @@ func RunV1(c *Case, fireAt int) ImplOut {
 	if out.Crash != nil && strings.Contains(out.Crash.Value, "verif-probe-abort") {
 		out.Crash, out.Aborted = nil, true
 	}
+	if sig.Runaway {
+		out.Aborted = true
+	}
 	out.Trace = sig.Trace
 	out.Polls = sig.Polls
 	out.After = sig.AfterHit
@@ -342,15 +345,23 @@ type Verdict struct {
 // Decide runs the case on both sides and accepts if the implementation matches the reference under
 // some assignment of the open rows the reference consulted.
 func Decide(c *Case, run func() ImplOut, extra map[string]func(*model.Interp, *gen.Node) (any, error), checkPoint, checkPos bool) Verdict {
-	io := run()
 	var v Verdict
+	// the reference runs first: a case that exhausts its fuel / size budget is dropped before the
+	// implementation is run at all (exponential string growth is a resource limit, not platypus logic)
+	pre := RunModel(c, map[string]int{}, extra)
+	if pre.Discard != nil {
+		v.Model = pre
+		v.Discard = pre.Discard
+		return v
+	}
+	io := run()
 	v.Impl = io
 	if io.Crash != nil {
 		v.Msg = "implementation crashed: " + io.Crash.Value + "\n" + firstLines(io.Crash.Stack, 14)
 		return v
 	}
 	if io.Aborted {
-		v.Msg = "run kept executing probes after the cancellation signal"
+		v.Msg = "the run did not terminate (stopped after 200000 probe records / 3000000 polls) although the reference terminates"
 		return v
 	}
 	cmp := func(m ModelOut) string {
@@ -372,13 +383,8 @@ func Decide(c *Case, run func() ImplOut, extra map[string]func(*model.Interp, *g
 		}
 		return ""
 	}
-	opts := map[string]int{}
-	m := RunModel(c, opts, extra)
+	m := pre
 	v.Model = m
-	if m.Discard != nil {
-		v.Discard = m.Discard
-		return v
-	}
 	first := cmp(m)
 	rows := touchedRows(m.Touched)
 	v.Rows = rows
